@@ -259,14 +259,15 @@ def s3(ctx, rep):
 
 
 def _lur_and_resource(f):
-    """the locals holding `<record>.largest_update_resource` and `int(result[self._resource_attr])`"""
-    from ..engine import vars_assigned_from
-    lur = vars_assigned_from(f, lambda v: isinstance(v, ast.Attribute) and v.attr == "largest_update_resource")
-    res = vars_assigned_from(f, lambda v: isinstance(v, ast.Call) and fn_name(v) == "int" and v.args
-                             and isinstance(argn(v, 0), ast.Subscript) and U(argn(v, 0).slice) == "self._resource_attr")
-    if len(set(lur)) != 1 or len(set(res)) != 1:
-        raise AnchorError(f"{f.short}: locals for largest_update_resource / the reported resource not identified ({lur}, {res})")
-    return lur[0], res[0]
+    """predicates on the text of an atom's operand: it is `<record>.largest_update_resource` / `int(result[self._resource_attr])`,
+    or a local holding that"""
+    from .common import value_pred
+    is_lur = value_pred(f, lambda v: isinstance(v, ast.Attribute) and v.attr == "largest_update_resource")
+    is_res = value_pred(f, lambda v: isinstance(v, ast.Call) and fn_name(v) == "int" and v.args
+                        and isinstance(argn(v, 0), ast.Subscript) and U(argn(v, 0).slice) == "self._resource_attr")
+    if not any(isinstance(y, ast.Attribute) and y.attr == "largest_update_resource" for y in ast.walk(f.node)):
+        raise AnchorError(f"{f.short}: largest_update_resource is not read")
+    return is_lur, is_res
 
 
 def s4(ctx, rep):
@@ -284,7 +285,7 @@ def s4(ctx, rep):
     for n in cfg.nodes:
         if n.kind == "stmt" and isinstance(n.ast, ast.Assign) and isinstance(n.ast.targets[0], ast.Name) \
                 and n.ast.targets[0].id == flag and isinstance(n.ast.value, ast.Constant) and n.ast.value.value is False:
-            if ctx.has_fact(f, n.id, lambda a: a[0] == "eq" and a[3] is True and {a[1], a[2]} == {lur, res}):
+            if ctx.has_fact(f, n.id, lambda a: a[0] == "eq" and a[3] is True and ((lur(a[1]) and res(a[2])) or (lur(a[2]) and res(a[1])))):
                 found = True
                 rep.ok("S4", "guarded_by", "HyperbandScheduler.on_trial_result: update flag cleared at same resource",
                        f, n.ast, f"{flag} = False on the edge resource == largest_update_resource")
@@ -295,8 +296,8 @@ def s4(ctx, rep):
     # largest_update_resource advanced otherwise
     st = [n for n in cfg.nodes if n.kind == "stmt" and isinstance(n.ast, ast.Assign)
           and U(n.ast.targets[0]).endswith(".largest_update_resource")]
-    ok = bool(st) and all(U(n.ast.value) == res and ctx.has_fact(
-        f, n.id, lambda a: a[0] == "eq" and a[3] is False and {a[1], a[2]} == {lur, res}) for n in st)
+    ok = bool(st) and all(res(U(n.ast.value)) and ctx.has_fact(
+        f, n.id, lambda a: a[0] == "eq" and a[3] is False and ((lur(a[1]) and res(a[2])) or (lur(a[2]) and res(a[1])))) for n in st)
     rep.put(ok, "S4", "guarded_by", "HyperbandScheduler.on_trial_result: largest_update_resource advanced", f,
             st[0].ast if st else None, "record.largest_update_resource = resource on the not-equal edge")
     # on_trial_complete forwards only beyond the largest update resource
@@ -308,7 +309,7 @@ def s4(ctx, rep):
         raise AnchorError("HyperbandScheduler.on_trial_complete: super().on_trial_complete not found")
     lur2, res2 = _lur_and_resource(g)
     for nid, c in sup:
-        ok = ctx.has_fact(g, nid, lambda a: a[0] == "lt" and a[1] == lur2 and a[2] == res2)
+        ok = ctx.has_fact(g, nid, lambda a: a[0] == "lt" and lur2(a[1]) and res2(a[2]))
         rep.put(ok, "S4", "guarded_by", "HyperbandScheduler.on_trial_complete: forward | resource > largest_update_resource",
                 g, c, "final result forwarded to the searcher only if not already used",
                 "final result forwarded although resource <= largest_update_resource is possible (double observation)")
